@@ -29,6 +29,8 @@ struct SymFP : PassInfoMixin<SymFP> {
     auto fUn   = M.getOrInsertFunction("__sym_un", FunctionType::get(D, {I8P, D}, false));
     auto fBi   = M.getOrInsertFunction("__sym_bi", FunctionType::get(D, {I8P, D, D}, false));
     auto fTer  = M.getOrInsertFunction("__sym_fma", FunctionType::get(D, {D, D, D}, false));
+    auto fExt  = M.getOrInsertFunction("__sym_ext_arg", FunctionType::get(D, {D, I8P}, false));
+    std::set<std::string> extSeen;
     std::set<std::string> un, bi;
     for (auto p = unaryFns; *p; ++p) un.insert(*p);
     for (auto p = binaryFns; *p; ++p) bi.insert(*p);
@@ -91,6 +93,13 @@ struct SymFP : PassInfoMixin<SymFP> {
             else if (bi.count(base) && CB->arg_size() == 2 && CB->getArgOperand(0)->getType()->isDoubleTy() && CB->getArgOperand(1)->getType()->isDoubleTy())
               R = B.CreateCall(fBi, {strc(base), CB->getArgOperand(0), CB->getArgOperand(1)});
             else if (base == "powi" ) problems.push_back(("powi in " + F.getName()).str());
+            else if (Cal->isDeclaration() && !N.startswith("llvm.") && !N.startswith("__sym_") &&
+                     (!N.startswith("_Z") || N.startswith("_ZNS") || N.startswith("_ZNKS") || N.startswith("_ZSt"))) {   // C library or namespace std (functions of the library's other units are instrumented themselves)
+              // a double handed to a function outside the instrumented code (text formatting, libm entry points without a model): the runtime is told,
+              // so that a symbolic value arriving there is counted (formatting) or ends the path as unsupported (everything else) instead of being used as a NaN
+              for (unsigned a = 0; a < CB->arg_size(); a++) if (CB->getArgOperand(a)->getType()->isDoubleTy()) {
+                Value *w = B.CreateCall(fExt, {CB->getArgOperand(a), strc(N)}); CB->setArgOperand(a, w); extSeen.insert(N.str()); }
+            }
           }
           if (R && isa<InvokeInst>(CB)) {
             // math functions do not throw: branch to the normal destination
@@ -104,6 +113,7 @@ struct SymFP : PassInfoMixin<SymFP> {
     }
     errs() << "symfp: rewrote " << nrew << " instructions\n";
     for (auto &p : problems) errs() << "symfp: PROBLEM " << p << "\n";
+    if (getenv("SYMFP_LIST_EXT")) for (auto &p : extSeen) errs() << "symfp: EXT " << p << "\n";
     return PreservedAnalyses::none();
   }
 };
